@@ -116,7 +116,7 @@ def main():
 
 
 NOT_APPLICABLE = {}
-HOOK_COMMITS = []
+HOOK_COMMITS = ['9153212']
 
 if __name__ == "__main__":
     main()
